@@ -12,12 +12,25 @@ fn codes(v: &[swift_mt_message::errors::SwiftValidationError]) -> Vec<String> {
     v.iter().map(|e| e.error_code().to_string()).collect()
 }
 
+fn errs_json(v: &[swift_mt_message::errors::SwiftValidationError]) -> Vec<Value> {
+    v.iter().map(|e| serde_json::to_value(e).unwrap_or(Value::Null)).collect()
+}
+
 fn describe<T: SwiftMessageBody>(m: &SwiftMessage<T>) -> Value {
+    let before = format!("{:?}", m);
     let full = m.fields.validate_network_rules(false);
     let stop = m.fields.validate_network_rules(true);
+    let full2 = m.fields.validate_network_rules(false);
+    let stop2 = m.fields.validate_network_rules(true);
     let vr = m.validate();
+    let after = format!("{:?}", m);
     json!({
         "ok": true,
+        "rules_json": errs_json(&full),
+        "rules_stop_json": errs_json(&stop),
+        "rules_json_again": errs_json(&full2),
+        "rules_stop_json_again": errs_json(&stop2),
+        "unchanged_by_validation": before == after,
         "json": serde_json::to_value(m).unwrap_or(Value::Null),
         "mt": m.to_mt_message(),
         "block4": m.fields.to_mt_string(),
